@@ -116,7 +116,6 @@ Record InvA (s : st) : Prop := {
   ia_q : rwait s = false -> queue s = [];
   ia_wfq : Forall wf_qitem (queue s);
   ia_master : replica s = false -> rwait s = false;
-  ia_rep : replica s = true -> durable s = bsize (bl s);
   ia_rw : rwait s = true -> comm s < eoff s
 }.
 
@@ -130,11 +129,11 @@ Qed.
 Lemma InvA_set_wait s c q a :
   InvA s -> comm s <= c <= durable s -> (rwait s = true -> c < eoff s) -> InvA (set_wait s c q a).
 Proof.
-  intros [D U C Q W M R RW] Hc Hr. constructor; simpl; auto; lia.
+  intros [D U C Q W M RW] Hc Hr. constructor; simpl; auto; lia.
 Qed.
 
 Lemma InvA_set_nread s n : InvA s -> InvA (set_nread s n).
-Proof. intros [D U C Q W M R RW]. constructor; simpl; auto. Qed.
+Proof. intros [D U C Q W M RW]. constructor; simpl; auto. Qed.
 
 Lemma notify_fst_snd c q : exists a r, notify c q = (a, r).
 Proof. destruct (notify c q); eauto. Qed.
@@ -150,12 +149,12 @@ Proof. intro H. destruct (Z.geb_spec a b); [discriminate|lia]. Qed.
 
 (* the replica's delayed commit: COMMIT, then apply the queue *)
 Lemma InvA_flush_commit s0 c wq ak :
-  InvA s0 -> replica s0 = true -> comm s0 <= c <= durable s0 ->
+  InvA s0 -> eoff s0 <= durable s0 -> comm s0 <= c <= durable s0 ->
   InvA (flush (sql_commit (set_wait s0 c wq ak))).
 Proof.
-  intros [D U C Q W M R RW] Rep Hc.
+  intros [D U C Q W M RW] R Hc.
   destruct D as (a0 & b0 & c0 & Ebl & Edbc & Edbt & Sc & Ee & Da).
-  specialize (R Rep).
+  rewrite Ee in R. rewrite !bsize_app in R.
   set (s := set_wait s0 c wq ak).
   unfold flush.
   destruct (flush_fold (queue (sql_commit s)) (sql_commit s)) as (E & R1 & Q1 & QO1 & EO & KV & OFF & SAME); [exact W|].
@@ -175,7 +174,7 @@ Proof.
       split; [simpl; rewrite Edbt, app_nil_r; reflexivity|].
       split; [exact Sc|].
       split; [rewrite Ee; simpl; rewrite !bsize_app; simpl; lia|].
-      rewrite R, Hsz. rewrite !bsize_app. simpl. lia.
+      rewrite !bsize_app. simpl. lia.
     + exists (a0 ++ b0), (c0 ++ qlevs (i :: q')), []. rewrite Eb, Edc, Ed.
       assert (O : off (dbt f) = eoff f) by (apply OFF; discriminate).
       split; [rewrite Ebl; simpl; rewrite ?app_nil_r; rewrite <- ?app_assoc; simpl; rewrite ?app_nil_r; reflexivity|].
@@ -186,13 +185,12 @@ Proof.
         - rewrite EO, Ee. rewrite !bsize_app. lia. }
       split; [constructor|].
       split; [rewrite EO, Ee, !bsize_app; simpl; lia|].
-      rewrite R, Hsz, !bsize_app. lia.
+      rewrite !bsize_app. lia.
   - rewrite Ec, Ed, Eb. simpl. lia.
   - rewrite Ec. simpl. lia.
   - reflexivity.
   - constructor.
   - reflexivity.
-  - intros _. rewrite Ed, Eb. exact R.
   - discriminate.
 Qed.
 
@@ -207,8 +205,7 @@ Proof.
   assert (Eo1 : eoff s1 = eoff s) by reflexivity.
   destruct (rwait s1 && (o >=? eoff s1)) eqn:F.
   - apply andb_true_iff in F. destruct F as [Rw Oe].
-    apply InvA_flush_commit; [exact I| |lia].
-    destruct (replica s) eqn:E; [reflexivity|]. destruct I as [D U C Q W M R RW]. rewrite (M E) in Rw1. congruence.
+    apply geb_true in Oe. apply InvA_flush_commit; [exact I|simpl in Oe; lia|lia].
   - apply InvA_set_wait; [exact I|lia|].
     intro Rw. rewrite Rw1, Rw in F. simpl in F. apply geb_false in F. exact F.
 Qed.
@@ -232,20 +229,19 @@ Qed.
 
 Lemma InvA_sql_commit s : InvA s -> off (dbt s) <= durable s -> InvA (sql_commit s).
 Proof.
-  intros [D U C Q W M R RW] H.
+  intros [D U C Q W M RW] H.
   destruct D as (a0 & b0 & c0 & Ebl & Edbc & Edbt & Sc & Ee & Da).
   constructor; simpl; auto.
   exists (a0 ++ b0), [], c0. rewrite Edbt in *. simpl in *. rewrite !app_nil_r.
   rewrite Ebl, Ee, <- !app_assoc. repeat split; auto.
 Qed.
 
-Lemma InvA_set_durable s d : InvA s -> replica s = false -> durable s <= d <= bsize (bl s) -> InvA (set_bl s (bl s) d).
+Lemma InvA_set_durable s d : InvA s -> durable s <= d <= bsize (bl s) -> InvA (set_bl s (bl s) d).
 Proof.
-  intros [D U C Q W M R RW] Rep H.
+  intros [D U C Q W M RW] H.
   destruct D as (a0 & b0 & c0 & Ebl & Edbc & Edbt & Sc & Ee & Da).
   constructor; simpl; auto; try lia.
-  - exists a0, b0, c0. repeat split; auto. lia.
-  - intro X. congruence.
+  exists a0, b0, c0. repeat split; auto. lia.
 Qed.
 
 (* Append of a user lev (plus, optionally, a service lev added by the binlog) on a master *)
@@ -259,7 +255,7 @@ Lemma InvA_append s l (svc : bool) d :
                 (dbc s) (mkdb (apply_lev (kv (dbt s)) l) predicted) real)
   /\ real = bsize b'.
 Proof.
-  intros [D U C Q W M R RW] Rep Us b' predicted real Hd.
+  intros [D U C Q W M RW] Rep Us b' predicted real Hd.
   destruct D as (a0 & b0 & c0 & Ebl & Edbc & Edbt & Sc & Ee & Da).
   pose proof (M Rep) as Rw. pose proof (Q Rw) as Qe.
   rewrite Qe in Ebl. simpl in Ebl. rewrite app_nil_r in Ebl.
@@ -281,7 +277,6 @@ Proof.
     split. { rewrite Hreal. unfold b'. rewrite Ebl. repeat (rewrite ?bsize_app; simpl).
              destruct svc; simpl; lia. }
     lia.
-  - intro X. congruence.
   - intro X. congruence.
 Qed.
 
@@ -312,7 +307,7 @@ Proof.
   set (d' := if asap && flag f 8 then real else durable s).
   set (s1 := set_bl (set_dbs s (dbc s) (mkdb (apply_lev (kv (dbt s)) l) predicted) (eoff s)) b' d').
   assert (Hb : bsize b' = real /\ eoff s = bsize (bl s)).
-  { destruct I as [D U C Q W M R RW]. destruct D as (a0 & b0 & c0 & Ebl & _ & _ & _ & Ee & _).
+  { destruct I as [D U C Q W M RW]. destruct D as (a0 & b0 & c0 & Ebl & _ & _ & _ & Ee & _).
     rewrite (Q Rw) in Ebl. simpl in Ebl. rewrite app_nil_r in Ebl.
     assert (eoff s = bsize (bl s)) by (rewrite Ee, Ebl; reflexivity).
     split; [|assumption]. unfold b', real, predicted. rewrite bsize_app. simpl.
@@ -363,7 +358,7 @@ Proof.
     destruct now; [|exact I4].
     set (s4 := set_wait s3 (comm s3) (waitq s3 ++ [(predicted, false, TW (length (bl s)))]) (acked s3)) in *.
     assert (I5 : InvA (set_bl s4 (bl s4) real)).
-    { apply InvA_set_durable; [exact I4|exact Rep3|]. simpl. pose proof (ia_dur s3 I3). lia. }
+    { apply InvA_set_durable; [exact I4|]. simpl. pose proof (ia_dur s3 I3). lia. }
     set (s5 := set_bl s4 (bl s4) real) in *.
     assert (Rw5 : rwait s5 = false) by (exact (ia_master s3 I3 Rep3)).
     destruct (commit_cb_master_fields real s5 Rw5) as (F1 & F2 & F3 & F4 & F5 & F6 & F7 & F8 & F9).
@@ -383,31 +378,29 @@ Qed.
 (* Engine.Apply / Engine.Skip on a replica, followed by the reader having seen the lev in the file *)
 Lemma InvA_deliver l t s :
   InvA s -> replica s = true ->
-  InvA (let s1 := deliver_core l t s in set_bl s1 (bl s1 ++ [l]) (bsize (bl s1 ++ [l]))).
+  InvA (let s1 := deliver_core l t s in set_bl s1 (bl s1 ++ [l]) (durable s1)).
 Proof.
-  intros [D U C Q W M R RW] Rep.
+  intros [D U C Q W M RW] Rep.
   destruct D as (a0 & b0 & c0 & Ebl & Edbc & Edbt & Sc & Ee & Da).
-  pose proof (R Rep) as Rd.
   assert (Hsz : bsize (bl s) = bsize a0 + bsize b0 + bsize c0 + bsize (qlevs (queue s))).
   { rewrite Ebl, !bsize_app. lia. }
   pose proof (bsize_nonneg a0). pose proof (bsize_nonneg b0). pose proof (bsize_nonneg c0).
   pose proof (bsize_nonneg (qlevs (queue s))). pose proof (lev_size_pos l).
   assert (ENQ : forall i, wf_qitem i -> qlev i = l -> rwait s = true \/ comm s < eoff s ->
-     InvA (set_bl (set_q s true (queue s ++ [i]) (qoff s)) (bl s ++ [l]) (bsize (bl s ++ [l])))).
+     InvA (set_bl (set_q s true (queue s ++ [i]) (qoff s)) (bl s ++ [l]) (durable s))).
   { intros i Wi Ei Hrw. constructor; simpl.
     - exists a0, b0, c0. unfold qlevs. rewrite map_app. simpl. rewrite Ei.
       split; [rewrite Ebl; rewrite <- !app_assoc; reflexivity|].
-      repeat split; auto. rewrite bsize_app. simpl. lia.
+      repeat split; auto.
     - rewrite bsize_app; simpl; lia.
     - exact C.
     - discriminate.
     - apply Forall_app. split; [exact W|repeat constructor; exact Wi].
     - intro X. congruence.
-    - reflexivity.
     - intros _. destruct Hrw as [X|X]; [exact (RW X)|exact X]. }
   assert (DIR : forall kv' (sv : bool), rwait s = false ->
      kv' = applyl (a0 ++ b0 ++ c0 ++ [l]) kv0 ->
-     InvA (set_bl (set_dbs s (dbc s) (mkdb kv' (eoff s + lev_size l)) (eoff s + lev_size l)) (bl s ++ [l]) (bsize (bl s ++ [l])))).
+     InvA (set_bl (set_dbs s (dbc s) (mkdb kv' (eoff s + lev_size l)) (eoff s + lev_size l)) (bl s ++ [l]) (durable s))).
   { intros kv' sv Rw Ek. pose proof (Q Rw) as Qe. rewrite Qe in *. simpl in Ebl. rewrite app_nil_r in Ebl.
     constructor; simpl.
     - exists a0, (b0 ++ c0 ++ [l]), []. rewrite Qe. simpl. rewrite app_nil_r.
@@ -416,20 +409,19 @@ Proof.
       split. { f_equal; [exact Ek|]. rewrite Ee. repeat (rewrite ?bsize_app; simpl). lia. }
       split; [constructor|].
       split. { rewrite Ee. repeat (rewrite ?bsize_app; simpl). lia. }
-      rewrite bsize_app. simpl. lia.
+      exact Da.
     - rewrite bsize_app; simpl; lia.
     - exact C.
     - intros _. exact Qe.
     - rewrite Qe. constructor.
     - intros _. exact Rw.
-    - reflexivity.
     - intro X. congruence. }
   cbv zeta. unfold deliver_core. destruct l as [k kd x j|].
   - destruct ((t || rwait s) && (eoff s >? comm s)) eqn:Cnd.
     + apply andb_true_iff in Cnd. destruct Cnd as [_ Cnd]. apply gtb_true in Cnd.
       unfold enqueue.
       assert (X := ENQ (QBody (LUser k kd x j)) eq_refl eq_refl (or_intror Cnd)).
-      destruct X as [D' U' C' Q' W' M' R' RW']. constructor; simpl in *; auto.
+      destruct X as [D' U' C' Q' W' M' RW']. constructor; simpl in *; auto.
     + assert (Rw : rwait s = false).
       { destruct (rwait s) eqn:E; [|reflexivity]. rewrite orb_true_r in Cnd. simpl in Cnd.
         specialize (RW eq_refl). destruct (Z.gtb_spec (eoff s) (comm s)); [discriminate|lia]. }
@@ -438,7 +430,7 @@ Proof.
       rewrite (applyl_app (a0 ++ b0)), (applyl_app c0). rewrite (applyl_svc c0) by exact Sc. reflexivity.
   - destruct (rwait s) eqn:Rw.
     + assert (X := ENQ (QSkip svc_size) eq_refl eq_refl (or_introl eq_refl)).
-      destruct X as [D' U' C' Q' W' M' R' RW']. constructor; simpl in *; auto.
+      destruct X as [D' U' C' Q' W' M' RW']. constructor; simpl in *; auto.
     + unfold direct_skip. apply (DIR _ true eq_refl). rewrite Edbt. simpl.
       replace (a0 ++ b0 ++ c0 ++ [LSvc]) with ((a0 ++ b0) ++ c0 ++ [LSvc]) by (rewrite <- app_assoc; reflexivity).
       rewrite (applyl_app (a0 ++ b0)), (applyl_app c0). rewrite (applyl_svc c0) by exact Sc. reflexivity.
@@ -607,7 +599,6 @@ Proof.
   - intros _. exact Qu.
   - rewrite Qu. constructor.
   - intros _. exact Rw.
-  - intros _. rewrite Du, B. reflexivity.
   - rewrite Rw. discriminate.
 Qed.
 
@@ -616,9 +607,8 @@ Proof.
   intro I. destruct o as [l f| |n|n| |l t|keep]; simpl.
   - apply InvA_do_write; exact I.
   - apply InvA_do_read; exact I.
-  - destruct (negb (replica s) && (durable s <=? bsize (firstn n (bl s)))) eqn:G; [|exact I].
-    apply andb_true_iff in G. destruct G as [G1 G2]. apply negb_true_iff in G1. apply Z.leb_le in G2.
-    apply InvA_set_durable; [exact I|exact G1|]. pose proof (bsize_firstn_le n (bl s)). lia.
+  - destruct (durable s <=? bsize (firstn n (bl s))) eqn:G2; [|exact I]. apply Z.leb_le in G2.
+    apply InvA_set_durable; [exact I|]. pose proof (bsize_firstn_le n (bl s)). lia.
   - destruct (bsize (firstn n (bl s)) <=? durable s) eqn:G; [|exact I]. apply Z.leb_le in G.
     apply InvA_commit_cb; [exact I|exact G].
   - destruct (mode s); [|exact I].
